@@ -3996,9 +3996,11 @@ class TLSConnection(TLSRecordLayer):
                                                             version)
             cipherSuites += CipherSuite.getCertSuites(settings, version)
         elif anon:
-            cipherSuites += CipherSuite.getAnonSuites(settings, version)
-            cipherSuites += CipherSuite.getEcdhAnonSuites(settings,
-                                                          version)
+            if ffGroupIntersect:
+                cipherSuites += CipherSuite.getAnonSuites(settings, version)
+            if ecGroupIntersect:
+                cipherSuites += CipherSuite.getEcdhAnonSuites(settings,
+                                                              version)
         elif settings.pskConfigs:
             cipherSuites += CipherSuite.getTLS13Suites(settings,
                                                        version)
